@@ -17,7 +17,7 @@
         5 speech-like with NaN / Inf / huge samples sprinkled in (float entry point; the integer entry
         points get saturated full-scale values instead), 6 wide stereo music-like, 7 every sample huge (1e10)
         or NaN, 8 pure tone, 9 impulses, 11 clean talk spurts separated by digital silence (no noise), 12 clean talker
-        without pauses, 13 tones + noise ramping within 120 ms, 14 unvoiced (fricative-like noise) talk spurts separated by digital silence (c09 also: 10 = signal 1 with pauses of 0.7 s).
+        without pauses, 13 tones + noise ramping within 120 ms, 15 / 16 quiet start (300 ms of faint noise, -66 dBFS) then a stationary loud harmonic complex / loud noise, 14 unvoiced (fricative-like noise) talk spurts separated by digital silence (c09 also: 10 = signal 1 with pauses of 0.7 s).
    Each produced packet is decoded, in order, by every decoder of the execution.
 
    ------------------------------------------------------------------ hx_link c09 < script
@@ -122,6 +122,18 @@ static void gen_sig(sgen_t *s, int kind, float *x, int n, int ch, int fs)
       case 9: v = (s->n % (fs / 100) == 3) ? 0.9 : 0.0; w = (s->n % (fs / 80) == 5) ? -0.9 : 0.0; break;
       case 11: case 12: v = cleanspeech(s, fs, kind == 11); w = 0.8 * v; break;
       case 14: v = cleanspeech(s, fs, 2); w = 0.8 * v; break;
+      case 15: case 16: {   /* quiet start: 300 ms of faint noise (about -66 dBFS), then a STATIONARY loud signal for good -
+                               15: a steady harmonic complex (220 Hz, 3rd and 7th partial) over the same faint noise, about -13 dBFS;
+                               16: steady broadband noise, about -13 dBFS.  The MDCT layer's background-noise estimate is learnt
+                               in the quiet start, so the depth of its concealment floor below the loud level is observable. */
+         double nz = 8.5e-4 * (hx_unit(&s->r) * 2 - 1), nz2 = 8.5e-4 * (hx_unit(&s->r) * 2 - 1);
+         if (s->t < 0.3) { v = nz; w = nz2; }
+         else if (kind == 15) {
+            s->phase += 2 * M_PI * 220.0 / fs; if (s->phase > 2 * M_PI * 64) s->phase -= 2 * M_PI * 64;
+            v = 0.27 * sin(s->phase) + 0.12 * sin(3 * s->phase + 0.5) + 0.06 * sin(7 * s->phase) + nz;
+            w = 0.22 * sin(s->phase + 0.4) + 0.10 * sin(3 * s->phase) + 0.05 * sin(7 * s->phase + 1.1) + nz2;
+         } else { v = 459.0 * nz; w = 459.0 * nz2; }
+         break; }
       case 13: {   /* non-stationary within a packet: steady tones plus noise whose level ramps 1 -> 0.15 -> 1 over 120 ms,
                       so that the 20 ms frames of one long packet get different variable-rate sizes */
          double ph = fmod(s->t, 0.12) / 0.06, ramp = 0.15 + 0.85 * (ph < 1 ? 1.0 - ph : ph - 1.0);
